@@ -408,7 +408,7 @@ func TestC12Stateful(t *testing.T) {
 		steps := rapid.IntRange(2, 30).Draw(rt, "steps")
 		for s := 0; s < steps; s++ {
 			delta := int64(1)
-			switch rapid.SampledFrom([]string{"add", "add", "add", "add", "set", "delete", "register", "fill", "expire"}).Draw(rt, "kind") {
+			switch rapid.SampledFrom([]string{"add", "add", "add", "add", "set", "delete", "register", "fill", "expire", "chain"}).Draw(rt, "kind") {
 			case "add":
 				typ := rapid.SampledFrom([]int64{recA, recAAAA, recCNAME, recCNAME, recTXT, recTXT, recSOA}).Draw(rt, "type")
 				d := "x"
@@ -416,6 +416,29 @@ func TestC12Stateful(t *testing.T) {
 					d = rapid.SampledFrom(data[typ]).Draw(rt, "data")
 				}
 				r.addRecord(rapid.SampledFrom(recNames).Draw(rt, "name"), typ, d, delta)
+			case "chain":
+				// an acyclic CNAME chain of k links over distinct usable names, ending in a TXT record
+				k := rapid.IntRange(1, 5).Draw(rt, "links")
+				now := int64(r.c.Now()) + 1
+				var usable []string
+				for _, nn := range recNames {
+					if r.tokenUsable(r.token(nn, now), now) {
+						usable = append(usable, nn)
+					}
+				}
+				if len(usable) < k+1 {
+					break
+				}
+				perm := rapid.Permutation(usable).Draw(rt, "order")[:k+1]
+				for i, nn := range perm {
+					r.deleteRecords(nn, recCNAME, 1)
+					if i < k {
+						r.addRecord(nn, recCNAME, perm[i+1], 1)
+					} else {
+						r.addRecord(nn, recTXT, fmt.Sprintf("end-of-chain-%d", s), 1)
+					}
+				}
+				h.Mark(fmt.Sprintf("built-chain-of-%d-links", k))
 			case "fill":
 				// many TXT values on one name: reaches the limit of 16
 				name := rapid.SampledFrom(recNames[:3]).Draw(rt, "name")
